@@ -255,9 +255,12 @@ def prog (F : Fns K) (P : Par K) : ProxId → Stmt K
       .set out [x, g] (fun a i => (1 / (1 + F.half * P.sigma / P.lam)) * a 0 i +
                                   (-P.sigma / (1 + F.half * P.sigma / P.lam)) * a 1 i)
   | .ccL2Sq true false =>
+      -- if sig is out: sig = sig.copy()          (/repo bc301ca)
+      .ifIs sig out (.new sig [sig] (fun a => a 0)) .skip ;;
       .new t1 [sig] (fun a i => 1 + F.half / P.lam * a 0 i) ;;
       .set out [x, t1] (fun a i => a 0 i / a 1 i)
   | .ccL2Sq true true =>
+      .ifIs sig out (.new sig [sig] (fun a => a 0)) .skip ;;
       .ifIs x out
         (.new tmp [sig, g] (fun a i => a 0 i * a 1 i) ;;
          .set out [x, tmp] (fun a i => 1 * a 0 i + (-1) * a 1 i))
@@ -272,9 +275,12 @@ def prog (F : Fns K) (P : Par K) : ProxId → Stmt K
       .set out [x, g] (fun a i => (1 / (1 + F.two * P.sigma * P.lam)) * a 0 i +
           (F.two * P.sigma * P.lam / (1 + F.two * P.sigma * P.lam)) * a 1 i)
   | .l2Sq true false =>
+      -- if sig is out: sig = sig.copy()          (/repo bc301ca)
+      .ifIs sig out (.new sig [sig] (fun a => a 0)) .skip ;;
       .new t1 [sig] (fun a i => 1 + F.two * a 0 i * P.lam) ;;
       .set out [x, t1] (fun a i => a 0 i / a 1 i)
   | .l2Sq true true =>
+      .ifIs sig out (.new sig [sig] (fun a => a 0)) .skip ;;
       .ifIs x out
         (.new t2 [g] (fun a i => F.two * P.lam * a 0 i) ;;
          .new tmp [sig, t2] (fun a i => a 0 i * a 1 i) ;;
@@ -339,7 +345,11 @@ def prog (F : Fns K) (P : Par K) : ProxId → Stmt K
       .ifIs x out (.new x [x] (fun a => a 0)) (.set out [x] (fun a => a 0)) ;;
       .set out [out] (fun a i => a 0 i - P.lam) ;;
       .set out [out] (fun a i => F.square (a 0 i)) ;;
-      (if hasG then .set out [out, Var.g] (fun a i => 1 * a 0 i + (F.four * P.lam * P.sigma) * a 1 i)
+      -- out.lincomb(1, out, 4*lam*sigma, x if g is out else g)      (/repo 94ea956)
+      (if hasG then
+        .ifIs Var.g out
+          (.set out [out, x] (fun a i => 1 * a 0 i + (F.four * P.lam * P.sigma) * a 1 i))
+          (.set out [out, Var.g] (fun a i => 1 * a 0 i + (F.four * P.lam * P.sigma) * a 1 i))
        else .set out [out] (fun a i => a 0 i + F.four * P.lam * P.sigma)) ;;
       .set out [out] (fun a i => F.sqrt (a 0 i)) ;;
       .set out [x, out] (fun a i => 1 * a 0 i + (-1) * a 1 i) ;;
